@@ -15,6 +15,45 @@ CLAIMS = {
  'C13': dict(cat='proof', ref='DESIGN.md section 4, C13',
    text='the C-library-like primitives are proved equal to their textbook definition for all NUL-terminated strings in objects of any size up to 2^40 bytes (loop contracts, ghost index); object methods as listed in the evidence; buffer give-back undecided where temporaries occur (destructors are not lowered).',
    note='trusted: emitter rules; string allocator seam; ghost-index encoding of universals'),
+ 'C01': dict(cat='other', ref='DESIGN.md section 4, C01',
+   text='PARTIAL claim, decided by contract proofs: the verdict arithmetic (isFailure <=> failures != 0 or run + ignored == 0), the counters (each count* increments exactly its own counter), addFailure (count + 1, printed once) and the summary line (true counts, OK exactly when not a failure). The sequencing clauses (body only after setup, teardown always, nothing after a failing check, printed exactly once, jump depth restored) live in try/catch + setjmp/longjmp code that CBMC cannot model: undecided, listed in the evidence.',
+   note='partial claim; trusted: emitter rules, print stubs; undecided clauses in contracts/C01.undecided.txt'),
+ 'C02': dict(cat='proof', ref='DESIGN.md section 4, C02',
+   text='swap/shuffle/reverse proved for arrays of any size and any value of the rand seam (every swap in range, nothing else written, loops terminate); filter predicate proved against the statement; list walks, relinking and the registry loop as bounded stand-ins (bounds in the evidence).',
+   note='trusted: rand seam returns any int; in-range transpositions compose to a permutation (pen and paper); bounded stand-ins are labelled bounded and not counted as proved'),
+ 'C04': dict(cat='proof', ref='DESIGN.md section 4, C04',
+   text='period/stage predicates proved for the full domain from the statement; bucket-chain operations as bounded stand-ins over every chain shape up to N nodes; table operations proved modularly on list summary contracts; detector operations proved with table calls replaced by contract. Whole-history exactness is the induction over these contracts.',
+   note='chains are bounded stand-ins (N in the evidence); composition into histories is a pen-and-paper induction; allocator seams assumed'),
+ 'C06': dict(cat='proof', ref='DESIGN.md section 4, C06',
+   text='guard-byte predicate proved for all 2^24 contents; checkForCorruption proved to issue exactly one of mismatch / corruption / nothing as the statement demands for all guard contents and allocator pairs; deallocMemory, invalidateMemory and the delete/free entry points (poison before release, own family allocator) proved with ghost call logs.',
+   note='trusted: report functions are stubs with ghost counters (their text is C14); allocator virtuals by base contract'),
+ 'C07': dict(cat='proof', ref='DESIGN.md section 4, C07',
+   text='pre/post test actions proved: a failure is added exactly once iff not ignoring, expected != leaks, no earlier failure; afterwards no block is left in the checking period (demotion: bounded), flags reset. The blame lemma is pen and paper over the C04/C06 contracts.',
+   note='that pre/post bracket setup..teardown is in try/catch code (C01 gap); demotion loop bounded'),
+ 'C09': dict(cat='proof', ref='DESIGN.md section 4, C09',
+   text='MockNamedValue::equals proved against the statement for all pairs of the 13 stored type tags plus an arbitrary other tag with full-width symbolic values: integer pairs by sign and magnitude in both directions, identity for bool/pointers, different non-integer tags never equal; widening getters return the stored integer or fail.',
+   note='trusted: tag strings modelled byte-wise in fresh 24-byte objects; string/memory/double comparisons through the C13/C03 contracts'),
+ 'C11': dict(cat='proof', ref='DESIGN.md section 4, C11',
+   text='parent-side logic proved for every 32-bit status word and every sequence of fork/waitpid outcomes: exactly one failure per non-zero exit / signal / stop event, fork and wait errors reported once, at most 31 EINTR retries, SIGCONT exactly for stopped children.',
+   note='trusted: the kernel reports a killed child as signalled; the child branch (_exit value) is in try/catch code; termination not claimed (a child may stop arbitrarily often)'),
+ 'C12': dict(cat='other', ref='DESIGN.md section 4, C12',
+   text='PARTIAL claim: numeric parsing (AtoI/AtoU) and the argv index discipline / substring preconditions of the listed helpers are proved; the option table of parse() ("means what the help text says") is undecided.',
+   note='partial claim; undecided clauses in contracts/C12.undecided.txt'),
+ 'C14': dict(cat='other', ref='DESIGN.md section 4, C14',
+   text='PARTIAL claim: every write of the fixed 4096-byte report buffer proved in bounds with the text terminated (invariant positions_filled_ <= 4095, write_limit_ <= 4095) for all call sequences of add/setWriteLimit/resetWriteLimit/clear; leak counting and the too-many notice of the report writer proved. The first-difference text of failing checks (TestFailure subclasses) is undecided.',
+   note='partial claim; vsnprintf modelled by a stub body (one arbitrary in-range write + NUL); undecided clauses in contracts/C14.undecided.txt'),
+ 'C15': dict(cat='proof', ref='DESIGN.md section 4, C15',
+   text='the fire predicate proved against the statement (location entries fire on their n-th allocation at that location only, global entries on the global index); pending-list operations as bounded stand-ins; countdown allocator switching and the NULL behaviour of calloc/strdup/strndup proved.',
+   note='pending list bounded (N in the evidence); side condition: two pending entries never designate the same allocation'),
+ 'C17': dict(cat='proof', ref='DESIGN.md section 4, C17',
+   text='pointer table discipline proved (no slot written at or beyond 32, failure raised instead; restore loop in bounds, terminates, index reset); restore order and plugin chains as bounded stand-ins.',
+   note='restore order and plugin chains bounded (n in the evidence); that post actions run after failing/throwing tests is the C01 gap'),
+ 'C18': dict(cat='proof', ref='DESIGN.md section 4, C18',
+   text='size-class selection proved complete; per-class list operations as bounded stand-ins (N blocks); alloc/dealloc/clear proved on top: a handed-out block has at least the requested size and was not in use, an unknown release sets the warning flag and changes no list, every block is freed exactly once on clear.',
+   note='lists bounded (N in the evidence); allocator by base contract; no-aliasing over all histories is the induction on the representation invariant'),
+ 'C20': dict(cat='other', ref='DESIGN.md section 4, C20',
+   text='PARTIAL claim: printEscaped proved to emit exactly one correct chunk per input byte for strings of any length, plus the decoding lemma; balance of suite/test messages is the C02 registry loop (bounded); that every writer passes every value through printEscaped is undecided.',
+   note='partial claim; undecided clauses in contracts/C20.undecided.txt'),
 }
 NOT_APPLICABLE = {
  'C08': 'verdict exactness over all mock call histories: the mock engine is C++ object graphs with value-semantics temporaries and destructor-held ownership; CBMC cannot parse it, the C lowering stops at destructors, and no per-function contract implies the history-level iff',
